@@ -784,6 +784,242 @@ pub proof fn lemma_items_instance()
 """
 
 
+MEMBER_ACCEPT = r"""
+// ======== C05: every member line printed from the documented grammar is accepted, with exactly the printed parts ========
+// the decimal rendering of a number (what a printer of mapping files writes): ASCII digits, at least one, and `str::parse` reads the number back
+pub uninterp spec fn dec(n: usize) -> Seq<u8>;
+#[verifier::external_body]
+pub proof fn axiom_dec(n: usize)
+    ensures dec(n).len() > 0, forall|j: int| 0 <= j < dec(n).len() ==> 48u8 <= #[trigger] dec(n)[j] <= 57u8, valid_utf8(dec(n)), spec_parse_usize(dec(n)) == Some(n),
+{}
+// `"".parse::<usize>()` is an error (std: IntErrorKind::Empty)
+#[verifier::external_body]
+pub proof fn axiom_parse_empty()
+    ensures spec_parse_usize(Seq::<u8>::empty()) is None,
+{}
+pub struct MemberParts { pub se: Option<(usize, usize)>, pub ty: Seq<u8>, pub name: Seq<u8>, pub args: Option<Seq<u8>>, pub ostart: Option<usize>, pub oend: Option<usize>, pub obf: Seq<u8> }
+pub open spec fn avoids(x: Seq<u8>, kind: int) -> bool { forall|j: int| 0 <= j < x.len() ==> !in_set(kind, #[trigger] x[j]) }
+// the documented shape of the parts: a type without space that does not start with a digit, a name without space or `(`, arguments without `)`,
+// original lines only after an argument list, an original end only after an original start; all of them UTF-8 and free of line terminators
+pub open spec fn parts_ok(p: MemberParts) -> bool {
+    &&& valid_utf8(p.ty) && avoids(p.ty, 3) && p.ty.len() > 0 && !spec_byte_is_numeric(p.ty[0])
+    &&& valid_utf8(p.name) && avoids(p.name, 4)
+    &&& (p.args is Some ==> valid_utf8(p.args->0) && avoids(p.args->0, 5))
+    &&& (p.ostart is Some ==> p.args is Some) && (p.oend is Some ==> p.ostart is Some)
+    &&& valid_utf8(p.obf) && avoids(p.obf, 0)
+}
+// the printed line, from its end:  [` -> ` OBF tail]  [`:` OEND]  [`:` OSTART]  [`(` ARGS `)`]  NAME  ` `  TYPE  [START `:` END `:`]  four spaces
+pub open spec fn s_arrow(p: MemberParts, tail: Seq<u8>) -> Seq<u8> { lit_arrow() + (p.obf + tail) }
+pub open spec fn s_oend(p: MemberParts, tail: Seq<u8>) -> Seq<u8> { match p.oend { Some(oe) => lit_colon() + (dec(oe) + s_arrow(p, tail)), None => s_arrow(p, tail) } }
+pub open spec fn s_ostart(p: MemberParts, tail: Seq<u8>) -> Seq<u8> { match p.ostart { Some(os) => lit_colon() + (dec(os) + s_oend(p, tail)), None => s_arrow(p, tail) } }
+pub open spec fn s_args(p: MemberParts, tail: Seq<u8>) -> Seq<u8> { match p.args { Some(a) => lit_lp() + (a + (lit_rp() + s_ostart(p, tail))), None => s_arrow(p, tail) } }
+pub open spec fn s_ty(p: MemberParts, tail: Seq<u8>) -> Seq<u8> { p.ty + (lit_sp() + (p.name + s_args(p, tail))) }
+pub open spec fn s_se(p: MemberParts, tail: Seq<u8>) -> Seq<u8> { match p.se { Some((s, e)) => dec(s) + (lit_colon() + (dec(e) + (lit_colon() + s_ty(p, tail)))), None => s_ty(p, tail) } }
+pub open spec fn member_text(p: MemberParts, tail: Seq<u8>) -> Seq<u8> { lit_4sp() + s_se(p, tail) }
+
+pub proof fn lemma_pre_strip(lit: Seq<u8>, rest: Seq<u8>)
+    ensures strip(lit + rest, lit) == Some(rest),
+{
+    reveal(strip);
+    let x = lit + rest;
+    assert(x.subrange(0, lit.len() as int) =~= lit);
+    assert(x.subrange(lit.len() as int, x.len() as int) =~= rest);
+}
+pub proof fn lemma_pre_find(x: Seq<u8>, rest: Seq<u8>, kind: int)
+    requires avoids(x, kind), rest.len() == 0 || in_set(kind, rest[0]),
+    ensures find_first(x + rest, kind) == x.len(), (x + rest).subrange(0, x.len() as int) == x, (x + rest).subrange(x.len() as int, (x + rest).len() as int) == rest,
+{
+    let b = x + rest;
+    assert forall|j: int| 0 <= j < x.len() implies !in_set(kind, #[trigger] b[j]) by { assert(b[j] == x[j]); }
+    if rest.len() > 0 { assert(b[x.len() as int] == rest[0]); }
+    lemma_find_first(b, kind, x.len() as int);
+    assert(b.subrange(0, x.len() as int) =~= x);
+    assert(b.subrange(x.len() as int, b.len() as int) =~= rest);
+}
+pub proof fn lemma_pre_word(x: Seq<u8>, rest: Seq<u8>, kind: int)
+    requires valid_utf8(x), avoids(x, kind), rest.len() > 0, in_set(kind, rest[0]), !spec_is_newline(rest[0]),
+    ensures sp_word(x + rest, kind) == Some((x, rest)),
+{
+    reveal(sp_word);
+    lemma_pre_find(x, rest, kind);
+    assert((x + rest)[x.len() as int] == rest[0]);
+}
+pub proof fn lemma_pre_until(x: Seq<u8>, rest: Seq<u8>, kind: int)
+    requires valid_utf8(x), avoids(x, kind), rest.len() == 0 || in_set(kind, rest[0]),
+    ensures sp_until(x + rest, kind) == Some((x, rest)),
+{
+    reveal(sp_until);
+    lemma_pre_find(x, rest, kind);
+}
+pub proof fn lemma_pre_num(n: usize, rest: Seq<u8>)
+    requires rest.len() == 0 || !spec_byte_is_numeric(rest[0]),
+    ensures sp_num(dec(n) + rest) == Some((n, rest)),
+{
+    reveal(sp_num);
+    axiom_dec(n);
+    assert(avoids(dec(n), 6)) by { assert forall|j: int| 0 <= j < dec(n).len() implies !in_set(6, #[trigger] dec(n)[j]) by { assert(48u8 <= dec(n)[j] <= 57u8); } }
+    lemma_pre_find(dec(n), rest, 6);
+}
+pub proof fn lemma_no_num(b: Seq<u8>)
+    requires b.len() > 0, !spec_byte_is_numeric(b[0]),
+    ensures sp_num(b) is None,
+{
+    reveal(sp_num);
+    axiom_parse_empty();
+    assert(find_first(b, 6) == 0);
+    assert(b.subrange(0, 0) =~= Seq::<u8>::empty());
+}
+// the first byte of each tail of the line (what ends the part printed before it)
+pub proof fn lemma_heads(p: MemberParts, tail: Seq<u8>)
+    ensures
+        s_arrow(p, tail).len() > 0 && s_arrow(p, tail)[0] == 32u8,
+        s_oend(p, tail).len() > 0 && (s_oend(p, tail)[0] == 32u8 || s_oend(p, tail)[0] == 58u8),
+        s_ostart(p, tail).len() > 0 && (s_ostart(p, tail)[0] == 32u8 || s_ostart(p, tail)[0] == 58u8),
+        s_args(p, tail).len() > 0 && (s_args(p, tail)[0] == 32u8 || s_args(p, tail)[0] == 40u8),
+{
+    assert(lit_arrow()[0] == 32u8 && lit_colon()[0] == 58u8 && lit_lp()[0] == 40u8);
+    assert(s_arrow(p, tail)[0] == lit_arrow()[0]);
+    match p.oend { Some(oe) => { assert(s_oend(p, tail)[0] == lit_colon()[0]); }, None => {} }
+    match p.ostart { Some(os) => { assert(s_ostart(p, tail)[0] == lit_colon()[0]); }, None => {} }
+    match p.args { Some(a) => { assert(s_args(p, tail)[0] == lit_lp()[0]); }, None => {} }
+}
+
+// from ` -> OBF tail` to the end
+pub proof fn lemma_acc_ms9(a: MemberSpec, p: MemberParts, tail: Seq<u8>)
+    requires parts_ok(p), cont(tail),
+    ensures ms9(a, strip(s_arrow(p, tail), lit_arrow())) == Some(MemberSpec { obf: p.obf, rest: tail, ..a }),
+{
+    reveal(ms9); reveal(ms10);
+    lemma_pre_strip(lit_arrow(), p.obf + tail);
+    lemma_pre_until(p.obf, tail, 0);
+}
+// an optional `:` NUMBER in front of a tail that starts with ` ` or `:`
+pub proof fn lemma_acc_optnum_none(gate: bool, t: Seq<u8>)
+    requires t.len() > 0, t[0] == 32u8,
+    ensures st_optnum(gate, t) == Some((None::<usize>, t)),
+{
+    reveal(strip);
+    assert(!has_prefix(t, lit_colon())) by { if has_prefix(t, lit_colon()) { assert(t.subrange(0, 1)[0] == t[0]); assert(lit_colon()[0] == 58u8); } }
+}
+pub proof fn lemma_acc_optnum_some(n: usize, t: Seq<u8>)
+    requires t.len() > 0, t[0] == 32u8 || t[0] == 58u8,
+    ensures st_optnum(true, lit_colon() + (dec(n) + t)) == Some((Some(n), t)),
+{
+    lemma_pre_strip(lit_colon(), dec(n) + t);
+    lemma_pre_num(n, t);
+}
+pub proof fn lemma_acc_ms7(a: MemberSpec, p: MemberParts, tail: Seq<u8>)
+    requires parts_ok(p), cont(tail),
+    ensures ms7(a, st_optnum(p.args is Some, s_ostart(p, tail))) == Some(MemberSpec { ostart: p.ostart, oend: p.oend, obf: p.obf, rest: tail, ..a }),
+{
+    reveal(ms7); reveal(ms8);
+    lemma_heads(p, tail);
+    match p.ostart {
+        Some(os) => {
+            lemma_acc_optnum_some(os, s_oend(p, tail));
+            let a1 = MemberSpec { ostart: Some(os), ..a };
+            match p.oend {
+                Some(oe) => { lemma_acc_optnum_some(oe, s_arrow(p, tail)); lemma_acc_ms9(MemberSpec { oend: Some(oe), ..a1 }, p, tail); },
+                None => { lemma_acc_optnum_none(true, s_arrow(p, tail)); lemma_acc_ms9(MemberSpec { oend: None, ..a1 }, p, tail); },
+            }
+        },
+        None => {
+            lemma_acc_optnum_none(p.args is Some, s_arrow(p, tail));
+            let a1 = MemberSpec { ostart: None, ..a };
+            lemma_acc_optnum_none(false, s_arrow(p, tail));
+            lemma_acc_ms9(MemberSpec { oend: None, ..a1 }, p, tail);
+        },
+    }
+}
+pub proof fn lemma_acc_ms5(a: MemberSpec, p: MemberParts, tail: Seq<u8>)
+    requires parts_ok(p), cont(tail),
+    ensures ms5(a, sp_word(p.name + s_args(p, tail), 4)) == Some(MemberSpec { orig: p.name, args: p.args, ostart: p.ostart, oend: p.oend, obf: p.obf, rest: tail, ..a }),
+{
+    reveal(ms5); reveal(ms6);
+    lemma_heads(p, tail);
+    lemma_pre_word(p.name, s_args(p, tail), 4);
+    let a1 = MemberSpec { orig: p.name, ..a };
+    match p.args {
+        Some(ar) => {
+            lemma_pre_strip(lit_lp(), ar + (lit_rp() + s_ostart(p, tail)));
+            assert((lit_rp() + s_ostart(p, tail))[0] == 41u8) by { assert(lit_rp()[0] == 41u8); }
+            lemma_pre_word(ar, lit_rp() + s_ostart(p, tail), 5);
+            lemma_pre_strip(lit_rp(), s_ostart(p, tail));
+            assert(st_args(s_args(p, tail)) == Some((Some(ar), s_ostart(p, tail))));
+            lemma_acc_ms7(MemberSpec { args: Some(ar), ..a1 }, p, tail);
+        },
+        None => {
+            // no `(`: the name is followed by ` -> `
+            assert(strip(s_arrow(p, tail), lit_lp()) is None) by {
+                reveal(strip);
+                if has_prefix(s_arrow(p, tail), lit_lp()) { assert(s_arrow(p, tail).subrange(0, 1)[0] == s_arrow(p, tail)[0]); assert(lit_lp()[0] == 40u8); }
+            }
+            assert(st_args(s_args(p, tail)) == Some((None::<Seq<u8>>, s_arrow(p, tail))));
+            lemma_acc_ms7(MemberSpec { args: None, ..a1 }, p, tail);
+        },
+    }
+}
+pub proof fn lemma_acc_ms3(a: MemberSpec, p: MemberParts, tail: Seq<u8>)
+    requires parts_ok(p), cont(tail),
+    ensures ms3(a, sp_word(s_ty(p, tail), 3)) == Some(MemberSpec { ty: p.ty, orig: p.name, args: p.args, ostart: p.ostart, oend: p.oend, obf: p.obf, rest: tail, ..a }),
+{
+    reveal(ms3); reveal(ms4);
+    let after = lit_sp() + (p.name + s_args(p, tail));
+    assert(after[0] == 32u8) by { assert(lit_sp()[0] == 32u8); }
+    lemma_pre_word(p.ty, after, 3);
+    lemma_pre_strip(lit_sp(), p.name + s_args(p, tail));
+    lemma_acc_ms5(MemberSpec { ty: p.ty, ..a }, p, tail);
+}
+// EVERY MEMBER LINE OF THE DOCUMENTED SHAPE IS ACCEPTED AND YIELDS EXACTLY ITS PARTS (whatever follows the line: nothing, or a line terminator and more input)
+pub proof fn lemma_every_well_formed_member_line_is_accepted(p: MemberParts, tail: Seq<u8>)
+    requires parts_ok(p), cont(tail),
+    ensures /*@L:every_well_formed_member_line_is_accepted_with_exactly_its_parts:C05*/
+        member_spec(member_text(p, tail)) == Some(MemberSpec {
+            start: match p.se { Some(se) => Some(se.0), None => None }, end: match p.se { Some(se) => Some(se.1), None => None },
+            ty: p.ty, orig: p.name, args: p.args, ostart: p.ostart, oend: p.oend, obf: p.obf, rest: tail }),
+{
+    reveal(ms1); reveal(ms2);
+    lemma_pre_strip(lit_4sp(), s_se(p, tail));
+    match p.se {
+        Some((s, e)) => {
+            let r1 = lit_colon() + (dec(e) + (lit_colon() + s_ty(p, tail)));
+            assert(r1[0] == 58u8) by { assert(lit_colon()[0] == 58u8); }
+            lemma_pre_num(s, r1);
+            lemma_pre_strip(lit_colon(), dec(e) + (lit_colon() + s_ty(p, tail)));
+            let r2 = lit_colon() + s_ty(p, tail);
+            assert(r2[0] == 58u8) by { assert(lit_colon()[0] == 58u8); }
+            lemma_pre_num(e, r2);
+            lemma_pre_strip(lit_colon(), s_ty(p, tail));
+            assert(st_start(s_se(p, tail)) == (Some(s), r1));
+            assert(st_end(Some(s), r1) == Some((Some(e), s_ty(p, tail))));
+            lemma_acc_ms3(MemberSpec { start: Some(s), end: Some(e), ..ms_init() }, p, tail);
+        },
+        None => {
+            assert(s_ty(p, tail)[0] == p.ty[0]);
+            lemma_no_num(s_ty(p, tail));
+            lemma_acc_ms3(MemberSpec { start: None, end: None, ..ms_init() }, p, tail);
+        },
+    }
+}
+// ... and the record is the one the parts denote (with C05's rule for the line mapping and the split at the last dot): through member_arec and
+// `item_and_rest_are_exactly_those_of_the_reference_parser`, the real parser returns it for the line alone or inside a file
+pub proof fn lemma_well_formed_member_line_denotes_its_record(p: MemberParts, tail: Seq<u8>)
+    requires parts_ok(p), cont(tail),
+    ensures /*@L:well_formed_member_line_parses_to_the_record_of_its_parts:C05*/ ({
+        let ms = MemberSpec { start: match p.se { Some(se) => Some(se.0), None => None }, end: match p.se { Some(se) => Some(se.1), None => None },
+                              ty: p.ty, orig: p.name, args: p.args, ostart: p.ostart, oend: p.oend, obf: p.obf, rest: tail };
+        line_spec(member_text(p, tail)) == Some((member_arec(ms), skip_nl(tail)))
+    }),
+{
+    lemma_every_well_formed_member_line_is_accepted(p, tail);
+    let b = member_text(p, tail);
+    lemma_pre_strip(lit_4sp(), s_se(p, tail));
+    assert(has_prefix(b, lit_4sp())) by { reveal(strip); }
+    assert(!has_prefix(b, lit_hash())) by { if has_prefix(b, lit_hash()) { assert(b.subrange(0, 1)[0] == b[0]); assert(b[0] == lit_4sp()[0]); assert(lit_hash()[0] == 35u8); } }
+}
+"""
+
+
 def build():
     u = Unit("u5_parser")
     u.raw(HEADER.replace("use std::cmp::Ordering;", "use std::cmp::Ordering;\nuse vstd::string::StringSliceAdditionalSpecFns;"), "header")
@@ -1603,5 +1839,6 @@ pub proof fn lemma_numeric_no_nl(b: Seq<u8>, k: int)
     u.raw("}\n", "glue")
 
     u.raw(label_helper_lemmas(LOCALITY, "C06"), "line locality and the concatenation theorem (pure lemmas)")
+    u.raw(label_helper_lemmas(MEMBER_ACCEPT, "C05"), "every well-formed member line is accepted with exactly its parts (pure lemmas)")
     u.raw(FOOTER, "footer")
     return u
